@@ -93,6 +93,14 @@ func (r *ResponseRecorder) Status() int {
 	return r.status
 }
 
+// Flush implements http.Flusher. Flushing sends the header with the
+// status recorded so far, so a later WriteHeader no longer changes
+// what the client received and must not change the record either.
+func (r *ResponseRecorder) Flush() {
+	r.ResponseWriterWrapper.Flush()
+	r.wroteHeader = true
+}
+
 // ResponseBuffer is a type that conditionally buffers the
 // response in memory. It implements http.ResponseWriter so
 // that it can stream the response if it is not buffering.
